@@ -158,24 +158,30 @@ structure Pipe where
   chan : ChanKind
   written : List Bytes        -- lines the writer received, in order
   destroyed : List Bytes      -- lines released (ghost)
+  writeErrors : Nat := 0      -- writer calls that reported a failure (ghost)
 deriving Repr
 
-/-- the text parameters of one call -/
+/-- the parameters of one call: its text, and what the environment does with it -/
 structure Call where
   level : Nat
   subject : Bytes
   msg : Bytes
   ts : Bytes
   tid : Bytes
+  writeOk : Bool := true      -- does the writer's `write` succeed for this line (disk full, closed pipe, …)
 deriving Repr
 
-/-- `s_aws_logger_pipeline_log`: format, send; a failed send destroys the line. Returns success. -/
+/-- `s_aws_logger_pipeline_log`: format, send; a failed send destroys the line. Returns success.
+`s_foreground_channel_send` ignores the result of the writer's `write`: it destroys the line itself and
+reports success whatever the writer said (so the pipeline must not, and does not, destroy it again). -/
 def pipelineLog (p : Pipe) (c : Call) : Pipe × Bool :=
   match defaultFormat c.level c.subject c.msg c.ts c.tid with
   | .error _ => (p, false)
   | .ok line =>
     match p.chan with
-    | .foreground => ({ p with written := p.written ++ [line], destroyed := p.destroyed ++ [line] }, true)
+    | .foreground =>
+      ({ p with written := p.written ++ [line], destroyed := p.destroyed ++ [line],
+                writeErrors := p.writeErrors + (if c.writeOk then 0 else 1) }, true)
     | .failing => ({ p with destroyed := p.destroyed ++ [line] }, false)
 
 /-- `AWS_LOGF(level, subject, …)` against this logger -/
@@ -249,6 +255,65 @@ inductive Reachable : Sys → Prop where
   | step {s s' : Sys} {a : Act} : Reachable s → step s a = some s' → Reachable s'
 
 end Fg
+
+/-! ### No-alloc logger used by several threads (`s_noalloc_stderr_logger_log`)
+
+Each call formats into ITS OWN buffer — `char format_buffer[MAXIMUM_NO_ALLOC_LOG_LINE_SIZE]` is an automatic
+(stack) variable of the call — and only then takes `impl->lock` around `fwrite`.  Formatting is therefore
+outside the lock; what keeps lines whole is that no other thread can touch the buffer of this call.
+`bufs t` is that buffer; the write step hands `bufs t` (not the line the call believes it formatted) to the
+file, so the theorem "the file holds exactly the formatted lines" is a statement about buffer ownership. -/
+namespace Na
+
+abbrev Line := Nat × Nat     -- (thread, sequence number of the call in that thread)
+
+inductive Pc where
+  | idle
+  | lock (l : Line)        -- formatted; aws_mutex_lock
+  | write (l : Line)       -- fwrite(format_buffer, amount_written)
+  | unlock (l : Line)      -- aws_mutex_unlock; return
+deriving Repr, DecidableEq
+
+structure Sys where
+  mutex : Option Nat
+  pcs : Nat → Pc
+  count : Nat → Nat
+  bufs : Nat → Option Line     -- contents of each thread's own format_buffer
+  file : List (Option Line)    -- what reached the FILE, in order
+  -- ghost
+  logged : List Line           -- the line each completed fwrite was meant to write
+  returned : List Line         -- calls that have returned
+
+def Sys.init : Sys :=
+  { mutex := none, pcs := fun _ => .idle, count := fun _ => 0, bufs := fun _ => none, file := [], logged := [], returned := [] }
+
+def setPc (s : Sys) (t : Nat) (pc : Pc) : Sys := { s with pcs := fun i => if i = t then pc else s.pcs i }
+
+inductive Act where
+  | startLog (t : Nat)     -- an accepted call: aws_format_standard_log_line into the call's buffer
+  | thread (t : Nat)
+deriving Repr, DecidableEq
+
+def step (s : Sys) : Act → Option Sys
+  | .startLog t =>
+    match s.pcs t with
+    | .idle =>
+      some { (setPc s t (.lock (t, s.count t))) with
+             count := fun i => if i = t then s.count t + 1 else s.count i,
+             bufs := fun i => if i = t then some (t, s.count t) else s.bufs i }
+    | _ => none
+  | .thread t =>
+    match s.pcs t with
+    | .idle => none
+    | .lock l => if s.mutex = none then some { (setPc s t (.write l)) with mutex := some t } else none
+    | .write l => some { (setPc s t (.unlock l)) with file := s.file ++ [s.bufs t], logged := s.logged ++ [l] }
+    | .unlock l => some { (setPc s t .idle) with mutex := none, returned := s.returned ++ [l] }
+
+inductive Reachable : Sys → Prop where
+  | init : Reachable Sys.init
+  | step {s s' : Sys} {a : Act} : Reachable s → step s a = some s' → Reachable s'
+
+end Na
 
 /-! ### Background channel as a transition system
 
